@@ -201,7 +201,9 @@ func genLiveRequests(r *rand.Rand, peer string, n int) []elem {
 		if r.Intn(3) != 0 {
 			e.Method = []string{"OPTIONS", "DESCRIBE", "GET_PARAMETER", "SET_PARAMETER"}[r.Intn(4)]
 		}
-		if e.URL == "" && e.Method != "OPTIONS" {
+		// the server answers DESCRIBE 200 with Content-Base = URL + "/": keep that value within the
+		// header-value limit, or the response is (rightly) refused by the reader
+		if (e.URL == "" && e.Method != "OPTIONS") || len(e.URL) > maxValueAccepted-8 {
 			e.URL = genURL(r, false)
 		}
 		capHeader(e.Header, 250, "CSeq", "Session", "X-Peer")
